@@ -276,7 +276,7 @@ func execute(c *core.Ctx, rs runSpec) (*runResult, error) {
 		if !traceEvents[name] {
 			continue
 		}
-		if name == "MemMergeEquiv" {
+		if name == "MemMergeEquiv" || name == "PersistCommitted" {
 			res.Records = append(res.Records, sx.CrashRecords([]sx.Event{ev})...)
 			continue
 		}
